@@ -82,6 +82,8 @@ def is_exc(res):
     return isinstance(res, tuple) and len(res) == 3 and res[0] == 'EXC'
 
 
+from . import reps as _reps  # noqa: E402,F401 -- registers the harness-defined grid-object types
+
 # ---------------------------------------------------------------- universe sweep
 SIGMAS = {
     'full': U.sigma_full(),
@@ -93,8 +95,11 @@ SIGMAS = {
     'door0': [U.door(2, 0), U.door(1, 0), U.key(0), U.door(2, U.C1)],
     'tele2': [U.telepod(U.C1), U.telepod(U.C2)],
     'rew5': [U.WALL, U.exit_(0), U.OBST, U.key(U.C1), U.door(1, U.C1)],
+    # user-defined types (registered by mc.reps): a holdable that is not a Key, a subclass of Key, next to the library's own
+    'custom4': [('VerifPlain0', 0, 0, None), ('VerifSubKey', 0, U.C1, None), U.key(U.C1), U.WALL],
 }
-HELDS = {'key0': [U.NONE, U.key(0), U.key(U.C1), U.beacon(0)], 'full': U.HELD_FULL, 'small': U.HELD_SMALL, 'two': [U.NONE, U.key(U.C1)], 'none': [U.NONE]}
+HELDS = {'key0': [U.NONE, U.key(0), U.key(U.C1), U.beacon(0)], 'full': U.HELD_FULL, 'small': U.HELD_SMALL, 'two': [U.NONE, U.key(U.C1)], 'none': [U.NONE],
+         'custom': [U.NONE, ('VerifPlain1', 0, 0, None), U.key(U.C1)]}
 
 
 def sweep(plan, worker_fn, nshards=64):
